@@ -1,6 +1,46 @@
-//! C15: harness commands for property C15 (stub).
+//! C15: deterministic probe of the known class `feature_range_splits_grapheme`: a non-global feature
+//! whose range splits a grapheme selects different glyphs at level 0 (the mark is merged into the base
+//! cluster before masks are set) than at levels 1 and 2.
+//!   rbv c15 probe
+use crate::fontgen::*;
+use crate::shp::*;
+use crate::util::*;
 
-pub fn run(_args: &[String]) {
-    eprintln!("c15: not implemented");
-    std::process::exit(2);
+pub fn run(args: &[String]) {
+    quiet_panics();
+    match args.get(0).map(|s| s.as_str()) {
+        Some("probe") => probe(),
+        _ => {
+            eprintln!("c15 probe");
+            std::process::exit(2)
+        }
+    }
+}
+
+fn probe() {
+    // glyphs: 1 = 'a', 2 = U+0301, 3 = 'b', 4 = substitute of the mark
+    let mut f = FontSpec::basic(5);
+    f.cmap = vec![(0x61, 1), (0x62, 3), (0x301, 2)];
+    f.gsub = Some(Layout::single_feature(
+        *b"ss01",
+        vec![Lookup::one(SubstSubtable::Single2 { coverage: Coverage::Glyphs(vec![2]), substitutes: vec![4] })],
+    ));
+    let bytes = build(&f);
+    let face = rustybuzz::Face::from_slice(&bytes, 0).expect("face");
+    let mut outs = Vec::new();
+    for level in 0..3u8 {
+        let req = Req {
+            text: vec![(0x61, 0), (0x301, 1), (0x62, 2)],
+            features: vec!["ss01[1:2]".to_string()],
+            flags: 3,
+            level,
+            dir: Some(rustybuzz::Direction::LeftToRight),
+            ..Default::default()
+        };
+        let g = shape_req(&face, &req);
+        let ids: Vec<String> = g.iter().map(|x| x.gid.to_string()).collect();
+        println!("probe level={} gids={}", level, ids.join(","));
+        outs.push(ids);
+    }
+    println!("probe-result levels_agree={}", (outs[0] == outs[1] && outs[1] == outs[2]) as u8);
 }
